@@ -185,6 +185,57 @@ async fn scenario(name: &str) -> Result<(), String> {
         return Err(format!("MODEL: the scenario's own set-up did not take: leader serves {:?}, snapshot index {}", on_leader, s_index));
     }
     match name {
+        "replicated_batch_fills_a_file" => {
+            // C02: follower replication (one batch per call) across the end of a log file. The index area of a file holds about
+            // 2000 entries (one per 128 records): ~259 000 small records fill it. Large batches up to shortly before that point,
+            // then batches of one record - so that the record that fills the file is the last one of its batch.
+            let node = boot(d2.path()).await;
+            let mk = |i: u64| Entry { term: 1, index: i, payload: EntryPayload::Normal(EntryNormal { data: ClientRequest::ConfigRemove { key: "k".to_string() } }) };
+            let mut next: u64 = 1;
+            while next < 258_001 {
+                let batch: Vec<Entry<ClientRequest>> = (next..next + 1000).map(mk).collect();
+                node.store.replicate_to_log(&batch).await.map_err(|e| format!("MODEL: bulk replicate at {}: {}", next, e))?;
+                next += 1000;
+            }
+            let files = |n: &Node| {
+                let idx = n.index.clone();
+                async move {
+                    match idx.send(RaftIndexRequest::LoadIndexInfo).await {
+                        Ok(Ok(RaftIndexResponse::RaftIndexInfo { raft_index, .. })) => raft_index.logs.len(),
+                        _ => 0,
+                    }
+                }
+            };
+            let mut rolled_at = 0u64;
+            while next < 262_000 {
+                let batch = vec![mk(next)];
+                if let Err(e) = node.store.replicate_to_log(&batch).await {
+                    return Err(format!(
+                        "replicating entry {} as a batch of one record fails: {} (log files in the catalogue: {}): the record that fills a log file was the last one of its batch",
+                        next, e, files(&node).await
+                    ));
+                }
+                next += 1;
+                if rolled_at == 0 && files(&node).await >= 2 {
+                    rolled_at = next;
+                    // a few more entries into the new file
+                    for _ in 0..3 {
+                        node.store.replicate_to_log(&vec![mk(next)]).await.map_err(|e| format!("replicating entry {} behind the rollover fails: {}", next, e))?;
+                        next += 1;
+                    }
+                    break;
+                }
+            }
+            if rolled_at == 0 {
+                return Err("MODEL: no rollover within 262 000 entries".to_string());
+            }
+            let got = node.store.get_log_entries(rolled_at - 3, next).await.map_err(|e| format!("query across the rollover fails: {}", e))?;
+            let idx: Vec<u64> = got.iter().map(|e| e.index).collect();
+            let want: Vec<u64> = (rolled_at - 3..next).collect();
+            if idx != want {
+                return Err(format!("entries across the rollover at {}: {:?} are returned, {:?} were acknowledged", rolled_at, idx, want));
+            }
+        }
         "truncate_behind_snapshot_pointer" | "truncate_behind_installed_snapshot" => {
             // C03 at the level of the log manager: the log catalogue starts with a snapshot pointer file (written by the second
             // compaction, or by a snapshot installation); a conflict truncation inside the current file must remove exactly the suffix
